@@ -63,9 +63,11 @@ def build(rng, facts, name):
                     jq = b.emit("q src %s" % f2h(q)); b.emit("q t %s" % f2h(q), ("same", jq))
         if exact: js = b.emit("kstats src"); b.emit("kstats t", ("same", js) if ":" not in kind else None)
     # decode into a non-empty sketch = merge
-    kind = rng.choice(STORES)
+    kind = rng.choice(STORES + ["pag"])
     b.knew("r1", spec, kind, kind, exact); b.knew("r2", spec, kind, kind, exact)
-    vs = rand_values(rng, rng.choice([1, 5]), -2, 2)
+    # receivers of every fill level: in particular a paginated store whose buffer is past its compaction trigger (97..127 unit entries)
+    nfill = rng.choice([1, 5, 40, 100, 110, 125, 140])
+    vs = rand_values(rng, nfill, -2, 2, zeros=0.02, signs=((1,) if nfill >= 100 else (1, -1)))
     for v in vs: b.kadd("r1", v); b.kadd("r2", v)
     b.emit("kdecinto r1 e", "ok"); b.kmerge("r2", "src")
     j1 = b.emit("kobs r2"); b.emit("kobs r1", ("same", j1))
